@@ -6,13 +6,11 @@
    * arrays = dtype tag + shape + row-major list of integer values (every generated value is a small
      integer, exactly representable in every dtype used);
    * time labels = integers in units of a fixed dyadic tick (float64 start + t is exact on that grid);
-   * xr.merge of the accumulated dataset with the one-slice dataset of the step = insertion of the
-     slice into a list sorted by label (outer join = sorted union of the indexes); an already present
-     label adds NO slice (identical slice: silently unchanged; different values: MergeError);
-   * the reindexing done by the merge fills with NaN, which promotes integer variables to float
-     (uint8/16 -> float32, uint32/64 -> float64); run_pipeline then casts `image` back to the dtype
-     of the detector's CURRENT image.  The round trip is modelled on values (round to 24 / 53
-     significant bits), because it is NOT the identity for uint64 values above 2^53. *)
+   * the accumulated dataset and the one-slice dataset of the step are CONCATENATED along `time`
+     (xr.concat): the new slice is appended, nothing is aligned, filled or dropped; the `image` variable
+     of the result has one dtype, run_pipeline casts it to the dtype of the detector's CURRENT image;
+   * a read-out (`to_xarray`) either copies the container's buffer or not (table `copies`); a record that was
+     not copied follows the container while it keeps its buffer. *)
 From Coq Require Import ZArith List Bool Ascii String Lia.
 Import ListNotations.
 Open Scope Z_scope.
@@ -59,8 +57,10 @@ Definition kind_of (b : bucket) (a : arr) : ckind :=
 
 (* does the read-out of a container of this kind COPY the container's buffer?  As coded: ArrayBase.to_xarray
    and the 2-D branch of Photon.to_xarray build `np.array(self.array, ...)` (a copy), the 3-D branch
-   `self._array.astype(...)` (a copy), Charge.to_xarray wraps `self.array` itself (NO copy). *)
-Definition copies_as_coded (k : ckind) : bool := match k with KCharge => false | _ => true end.
+   `self._array.astype(...)` (a copy), Charge.to_xarray `self.array.copy()`. *)
+Definition copies_as_coded (k : ckind) : bool := true.
+
+Definition all_copy (copies : ckind -> bool) : bool := forallb copies all_kinds.
 
 Fixpoint zlist_eqb (a b : list Z) : bool :=
   match a, b with
@@ -112,26 +112,7 @@ Definition extract (s : snapshot) : snapshot :=
   | None => s
   end.
 
-(* ------------------------------------------------------------------ float promotion of the merge *)
-
-(* round a non-negative integer to p significant bits, ties to even (int -> float conversion) *)
-Definition round_bits (p v : Z) : Z :=
-  if v <? 2 ^ p then v
-  else
-    let e := Z.log2 v - (p - 1) in
-    let q := v / 2 ^ e in
-    let r := v mod 2 ^ e in
-    let h := 2 ^ (e - 1) in
-    let q' := if r <? h then q else if h <? r then q + 1 else if Z.even q then q else q + 1 in
-    q' * 2 ^ e.
-
-(* NaN fill of an integer variable: xarray dtypes.maybe_promote *)
-Definition promote (a : arr) : arr :=
-  match a_dt a with
-  | U8 | U16 => {| a_dt := F32; a_shape := a_shape a; a_vals := map (round_bits 24) (a_vals a) |}
-  | U32 | U64 => {| a_dt := F64; a_shape := a_shape a; a_vals := map (round_bits 53) (a_vals a) |}
-  | _ => a
-  end.
+(* ------------------------------------------------------------------ the dtype of the image variable *)
 
 (* DataArray.astype(t); only unsigned targets change values (wrap modulo 2^width, the value of the
    C cast where it is defined) *)
@@ -140,58 +121,38 @@ Definition cast_to (t : dtype) (a : arr) : arr :=
   else {| a_dt := t; a_shape := a_shape a;
           a_vals := if is_unsigned t then map (fun v => v mod 2 ^ width t) (a_vals a) else a_vals a |}.
 
-(* what one merge + "fix the data type of the image" does to the image of a slice already in the
-   result; cur = the image the detector holds now *)
+(* the `image` variable of the concatenated dataset has ONE dtype (numpy's common type of the slices, for
+   unsigned integers the wider one: exact); "fix the data type of the image" then casts it to the dtype of
+   the image the detector holds now.  Both together: every earlier image slice is cast to that dtype.
+   cur = the image the detector holds now; nothing is done when it holds none. *)
 Definition fix_image (cur : option arr) (s : snapshot) : snapshot :=
-  match s_image s with
-  | None => s
-  | Some a =>
-      let p := promote a in
-      set s Image (Some (match cur with Some c => cast_to (a_dt c) p | None => p end))
+  match s_image s, cur with
+  | Some a, Some c => set s Image (Some (cast_to (a_dt c) a))
+  | _, _ => s
   end.
 
-(* --------------------------------------------------------------------------- merge along `time` *)
+(* ----------------------------------------------------------------------- concatenation along `time` *)
 
 Definition slice := (Z * snapshot)%type.
-Definition dataset := list slice.        (* sorted by label *)
-
-(* Some (true, d')  : the label was new, d' has one more slice
-   Some (false, d)  : the label was present with the identical slice: nothing added
-   None             : the label was present with other values: xarray raises MergeError *)
-Fixpoint insert (x : slice) (d : dataset) : option (bool * dataset) :=
-  match d with
-  | [] => Some (true, [x])
-  | y :: d' =>
-      if fst x <? fst y then Some (true, x :: y :: d')
-      else if fst x =? fst y then
-        (if snapshot_eqb (snd x) (snd y) then Some (false, y :: d') else None)
-      else
-        match insert x d' with
-        | None => None
-        | Some (fresh, d'') => Some (fresh, y :: d'')
-        end
-  end.
+Definition dataset := list slice.        (* in readout order *)
 
 Definition fix_all (cur : option arr) (d : dataset) : dataset :=
   map (fun ls => (fst ls, fix_image cur (snd ls))) d.
 
-Definition merge_step (d : dataset) (x : slice) : option dataset :=
-  match insert x d with
-  | None => None
-  | Some (false, _) => Some d
-  | Some (true, d') => Some (fix_all (s_image (snd x)) d')
-  end.
+(* xr.concat([accumulated, step], dim="time") + the dtype restoration *)
+Definition concat_step (d : dataset) (x : slice) : dataset :=
+  fix_all (s_image (snd x)) (d ++ [x]).
 
-Fixpoint assemble_from (d : dataset) (xs : list slice) : option dataset :=
+Fixpoint assemble_from (d : dataset) (xs : list slice) : dataset :=
   match xs with
-  | [] => Some d
-  | x :: xs' => match merge_step d x with None => None | Some d' => assemble_from d' xs' end
+  | [] => d
+  | x :: xs' => assemble_from (concat_step d x) xs'
   end.
 
 (* the first step's dataset is taken as it is (`buckets_data_tree.is_empty`) *)
-Definition assemble (xs : list slice) : option dataset :=
+Definition assemble (xs : list slice) : dataset :=
   match xs with
-  | [] => Some []
+  | [] => []
   | x :: xs' => assemble_from [x] xs'
   end.
 
@@ -217,18 +178,16 @@ Fixpoint cap_lookup (b : bucket) (c : capture) : option arr :=
   | (b', a) :: c' => if bucket_eqb b b' then Some a else cap_lookup b c'
   end.
 
-(* the variables stored in the model's node: those that differ (np.allclose on exact small integers =
-   equality of the values) from the previous capture; the very first capture is compared with zeros *)
-Definition recorded (last : option capture) (ba : bucket * arr) : bool :=
-  match last with
-  | None => negb (all_zero (snd ba))
-  | Some l => match cap_lookup (fst ba) l with
-              | None => true
-              | Some a' => negb (zlist_eqb (a_vals (snd ba)) (a_vals a'))
-              end
+(* the variables stored in the model's node: those of the capture taken after the model that are absent from,
+   or differ (np.allclose on exact small integers = equality of the values) from, the capture taken just
+   before the model *)
+Definition recorded (before : capture) (ba : bucket * arr) : bool :=
+  match cap_lookup (fst ba) before with
+  | None => true
+  | Some a' => negb (zlist_eqb (a_vals (snd ba)) (a_vals a'))
   end.
 
-Definition diff (last : option capture) (cur : capture) : capture := filter (recorded last) cur.
+Definition diff (before : capture) (cur : capture) : capture := filter (recorded before) cur.
 
 Record inode := { n_step : nat; n_group : string; n_name : string; n_vars : capture }.
 
@@ -323,15 +282,17 @@ Section Exposure.
         d0 :: model_states i (c_models c) d0 ++ trace c (S i) n' (run_models i (c_models c) d0)
     end.
 
-  Fixpoint debug_models (i : nat) (ms : list mdl) (d : det) (last : option capture)
-    : list inode * option capture :=
+  (* ModelGroup.run with debug: a deep copy of Detector.to_xarray() is taken just before the model, the
+     detector is read out again just after it, and the variables that differ are stored in the model's node *)
+  Fixpoint debug_models (i : nat) (ms : list mdl) (d : det) : list inode :=
     match ms with
-    | [] => ([], last)
+    | [] => []
     | m :: ms' =>
+        let before := visible (view d) in
         let d' := m_fn m i d in
         let cur := visible (view d') in
-        let r := debug_models i ms' d' (Some cur) in
-        ({| n_step := i; n_group := m_group m; n_name := m_name m; n_vars := diff last cur |} :: fst r, snd r)
+        {| n_step := i; n_group := m_group m; n_name := m_name m; n_vars := diff before cur |}
+          :: debug_models i ms' d'
     end.
 
   (* the k-th node was read out of the k-th state; it is looked at when the run is over *)
@@ -343,15 +304,14 @@ Section Exposure.
     | _, _ => []
     end.
 
-  Fixpoint debug_steps (c : config) (i n : nat) (d : det) (last : option capture) : list inode :=
+  Fixpoint debug_steps (c : config) (i n : nat) (d : det) : list inode :=
     match n with
     | O => []
     | S n' =>
         let d0 := reset (c_shape c) (c_nondestr c) d in
-        let r := debug_models i (c_models c) d0 last in
         let dend := run_models i (c_models c) d0 in
-        settle_nodes (fst r) (model_states i (c_models c) d0) (trace c (S i) n' dend)
-          ++ debug_steps c (S i) n' dend (snd r)
+        settle_nodes (debug_models i (c_models c) d0) (model_states i (c_models c) d0) (trace c (S i) n' dend)
+          ++ debug_steps c (S i) n' dend
     end.
 
   Record tree := {
@@ -376,8 +336,8 @@ Section Exposure.
   Definition labels (c : config) : list Z := map (Z.add (c_start c)) (c_times c).
 
   (* what the result holds of each step: the read-out of the detector at the end of the step.  The first
-     step's dataset is kept AS IT IS until the merge at the end of the second step (which allocates new
-     arrays), so a read-out that does not copy still shares the detector's buffer while the second step runs. *)
+     step's dataset is kept AS IT IS until the concatenation at the end of the second step (which allocates
+     new arrays), so a read-out that does not copy still shares the detector's buffer while the second step runs. *)
   Definition views (c : config) (ends : list det) : list snapshot :=
     match ends with
     | [] => []
@@ -389,22 +349,18 @@ Section Exposure.
         settle_snapshot e0 later (view e0) :: map view rest
     end.
 
-  Definition exposure (c : config) (d_init : det) : option tree :=
+  Definition exposure (c : config) (d_init : det) : tree :=
     let d0 := reset (c_shape c) false d_init in
     let n := List.length (c_times c) in
     let ends := end_states c 0 n d0 in
-    match assemble (combine (labels c) (views c ends)) with
-    | None => None
-    | Some ds =>
-        let final := last ends d0 in
-        let l := effective_layout (c_layout c) (d_scene final) in
-        Some {| t_bucket_path := bucket_path l;
-                t_children := children l (c_debug c);
-                t_buckets := ds;
-                t_inter := if c_debug c then Some (debug_steps c 0 n d0 None) else None;
-                t_scene := d_scene final;
-                t_data := d_data final |}
-    end.
+    let final := last ends d0 in
+    let l := effective_layout (c_layout c) (d_scene final) in
+    {| t_bucket_path := bucket_path l;
+       t_children := children l (c_debug c);
+       t_buckets := assemble (combine (labels c) (views c ends));
+       t_inter := if c_debug c then Some (debug_steps c 0 n d0) else None;
+       t_scene := d_scene final;
+       t_data := d_data final |}.
 
   (* the result with the debug nodes removed *)
   Definition strip_debug (t : tree) : tree :=
@@ -433,7 +389,7 @@ Section DebugSpec.
   Variable empty_scene : Scene.
 
   Definition changed_by (before after : snapshot) : capture :=
-    diff (Some (visible before)) (visible after).
+    diff (visible before) (visible after).
 
   Fixpoint ideal_models (i : nat) (ms : list (mdl Scene Data)) (d : det Scene Data) : list inode :=
     match ms with
@@ -455,20 +411,14 @@ End DebugSpec.
 
 (* ------------------------------------------------------------------------ hypotheses of C03_slices *)
 
-(* the image round trip of the merge leaves every recorded image as it was *)
+(* the dtype restoration leaves every recorded image as it was *)
 Definition image_stable (snaps : list snapshot) : Prop :=
   forall s s', In s snaps -> In s' snaps -> fix_image (s_image s') s = s.
 
-(* the bit budget under which an unsigned value survives promote + cast back *)
-Definition exact_bits (t : dtype) : Z :=
-  match t with U8 => 8 | U16 => 16 | U32 => 32 | U64 => 53 | _ => 0 end.
-
-(* image initialised in no step, or in every step with one unsigned dtype and values that fit *)
+(* image initialised in no step, or in every step with one dtype (any values) *)
 Definition image_uniform (snaps : list snapshot) : Prop :=
   (forall s, In s snaps -> s_image s = None) \/
-  (exists t, is_unsigned t = true /\
-     forall s, In s snaps -> exists a, s_image s = Some a /\ a_dt a = t /\
-       forall v, In v (a_vals a) -> 0 <= v < 2 ^ exact_bits t).
+  (exists t, forall s, In s snaps -> exists a, s_image s = Some a /\ a_dt a = t).
 
 (* ===================================================================== correspondence case files *)
 
@@ -709,7 +659,7 @@ Definition config_of (k : case) : config payload payload :=
      c_models := map (mdl_of [k_rows k; k_cols k]) (k_models k) |}.
 
 Definition model_tree (k : case) : option (tree payload payload) :=
-  exposure [] payload_is_empty copies_as_coded (config_of k) pdet0.
+  Some (exposure [] payload_is_empty copies_as_coded (config_of k) pdet0).
 
 Definition tree_matches (k : case) (t : tree payload payload) (o : otree) : bool :=
   String.eqb (t_bucket_path t) (o_bucket_path o)
